@@ -430,6 +430,7 @@ Section MultiChild.
                            ltac:(intros x []))
             as (A1 & A2 & A3 & A4 & A5 & A6).
           repeat rewrite app_nil_r in A5. repeat rewrite app_nil_r in A6.
+          repeat rewrite app_nil_r.
           split; [exact A1|]. split; [exact A2|]. split; [exact A3|]. split; [exact A4|].
           split; [exact A5|exact A6]. }
         destruct o1 as [x| | | |]; try (inv_ret Hc; exact Hstep).
@@ -440,6 +441,7 @@ Section MultiChild.
           destruct (close6 c1 (flat_map all rest) [] Hn ltac:(intros x []))
             as (A1 & A2 & A3 & A4 & A5 & A6).
           repeat rewrite app_nil_r in A5. repeat rewrite app_nil_r in A6.
+          repeat rewrite app_nil_r.
           split; [exact A1|]. split; [exact A2|]. split; [exact A3|]. split; [exact A4|].
           split; [exact A5|exact A6]. }
         rewrite <- app_assoc.
